@@ -112,6 +112,41 @@ def check_scanners(cx, facts, rep):
             rep.ok('SCAN', where + '|not-educed-trait-rejected')
         else:
             rep.bad('SCAN', where, 'trait-not-used', 'an attribute for a trait that is not educed on the type is not rejected (`!traits.contains(&t)` ⇒ Err(trait_not_used) missing)', f.file, f.line)
+        # S2b: the result may not be overwritten from one attribute to the next (last attribute wins): every assignment inside a loop
+        # must be dominated by the "already set ⇒ Err" check; collections of metas (Into) must live outside the loops
+        tail = sc.fw.tail
+        res_defs = []
+        if tail is not None:
+            tt = tm.term(tail, tm.scope_of_node(tail) or sc.fw.root)
+            for x in __import__('sa.terms', fromlist=['subterms']).subterms(tt):
+                if isinstance(x, tuple) and x[0] == 'var':
+                    dd = tm.def_by_id(x[1])
+                    if dd is not None:
+                        res_defs.append(dd)
+        okover = True
+        for dd in res_defs:
+            for a in dd.assigns:
+                loops_ = [c for c in a.ctx if c['k'] in ('for', 'loop')]
+                if not loops_:
+                    continue
+                at = facts.atoms(a.ctx, sc.fw)
+                guarded = any(x[0] == 'some' and x[1] == ('var', dd.id, dd.name) and x[2] is False for x in at)
+                if not guarded:
+                    rep.bad('SCAN', where, 'overwrite=%s' % dd.name,
+                            'the scan result `%s` is assigned inside the attribute loop without the "already set ⇒ Err" check: with several #[educe(..)] attributes on one item only the last one counts' % dd.name,
+                            f.file, a.line)
+                    okover = False
+        for ev in sc.fw.events:
+            if ev.kind == 'mcall' and ev.method == 'push':
+                r = __import__('sa.terms', fromlist=['strip_refs']).strip_refs(ev.recv)
+                if r['k'] == 'Path':
+                    cd = ev.scope.lookup(r['path']['s'])
+                    if cd is not None and cd.kind == 'let' and any(c['k'] in ('for', 'loop') for c in cd.ctx):
+                        rep.bad('SCAN', where, 'collector-scope=%s' % cd.name,
+                                'the metas of this trait are collected in `%s`, which is re-created for every attribute: metas of earlier #[educe(..)] attributes are dropped' % cd.name, f.file, cd.line)
+                        okover = False
+        if okover:
+            rep.ok('SCAN', where + '|result accumulates over all attributes')
         # S3: branches
         own = [b for b in sc.branches if b.trait == X]
         if not own:
